@@ -249,6 +249,8 @@ const char* ruleText(const std::string& property);
 // standalone checks that are not programs (C18, C19)
 int runMemoryManagerCase(Rand& R, int tier, Labels& L, Failure& fail, std::string& desc);
 int replayMemoryManager(const std::string& text, Failure& fail);
+int runCodecCampaign(int tier, unsigned worker, unsigned workers, uint64_t seed, Labels& L, Failure& fl, std::string& desc);
+int replayCodec(const std::string& text, Failure& fl);
 
 } // namespace mv
 #endif
